@@ -17,6 +17,7 @@ def main():
         replay_history('C02', a.replay)
     ns = [1, 2] if a.tier == 'quick' else [1, 2, 3]
     configs = [('dev', n, False) for n in ns] + ([('release', n, False) for n in ns] if a.tier == 'thorough' else [('release', 1, False)])
+    configs += iterchecks.ctor_configs(seed, ('dev',), a.tier == 'quick')
     iterchecks.run_configs('C02', 'c02', configs, a.tier, seed, t0, expected=[('no-panic', 'ends in a panic')],
                            assumptions=['representation invariant of the iterator: turn < river <= 48, each odometer index inside its list, position at or before a valid scope end',
                                         'deck = the 49 non-flop cards in rank-major order (established by new(); see C04 for the start state)',
